@@ -129,6 +129,11 @@ def main(argv=None):
             continue
         if any(fnmatch.fnmatch(f.key, pat) for pat in outside):
             skipped_outside.append(f.key)
+            if tier == "thorough" and not any("*" in pat and fnmatch.fnmatch(f.key, pat) for pat in outside):
+                # outside the claim (undecided on the pinned tree): still executed in the thorough tier as a
+                # bug hunt - a reproducing counterexample is reported, an undecided verdict is not an error
+                f.hunt = True
+                fams.append(f)
             continue
         if tier == "quick" and (f.tier == "thorough" or any(fnmatch.fnmatch(f.key, pat) for pat in slow)):
             skipped_slow.append(f.key)
@@ -178,6 +183,12 @@ def main(argv=None):
 
     # ---- verdicts -----------------------------------------------------------------------
     violations, known_hits, inconclusive, errors = [], [], [], []
+    hunted = {f.key for f in fams if getattr(f, "hunt", False)}
+    hunted_undecided = []
+    if hunted:
+        results_claim = [r for r in results if r["key"] not in hunted]
+    else:
+        results_claim = results
     os.makedirs(os.path.join(HERE, "replay", pid), exist_ok=True)
     for r in results:
         if r["status"] == "violation":
@@ -197,13 +208,16 @@ def main(argv=None):
                     json.dump(rec, fh, indent=1)
                 violations.append((r, path))
         elif r["status"] == "inconclusive":
-            inconclusive.append(r)
+            if r["key"] in hunted:
+                hunted_undecided.append(r)
+            else:
+                inconclusive.append(r)
         elif r["status"] != "proved":
             errors.append(r)
 
-    obligations = sum(len(r.get("goals", [])) for r in results)
-    discharged = sum(1 for r in results for g in r.get("goals", []) if g.get("verdict") in ("unsat", "concrete-true"))
-    solver_goals = sum(1 for r in results for g in r.get("goals", []) if g.get("verdict") in ("unsat", "sat", "unknown"))
+    obligations = sum(len(r.get("goals", [])) for r in results_claim)
+    discharged = sum(1 for r in results_claim for g in r.get("goals", []) if g.get("verdict") in ("unsat", "concrete-true"))
+    solver_goals = sum(1 for r in results_claim for g in r.get("goals", []) if g.get("verdict") in ("unsat", "sat", "unknown"))
     queries = sum(r.get("stats", {}).get("queries", 0) for r in results)
     solver_s = sum(r.get("stats", {}).get("solver_s", 0.0) for r in results)
     by_kind = {}
@@ -250,13 +264,16 @@ def main(argv=None):
                 "obligations": obligations,
                 "discharged": discharged,
                 "solver_decided_goals": solver_goals,
-                "families": len(results),
-                "families_proved": sum(1 for r in results if r["status"] == "proved"),
+                "families": len(results_claim),
+                "families_proved": sum(1 for r in results_claim if r["status"] == "proved"),
+                "outside_claim_hunted": len(hunted),
+                "outside_claim_hunted_undecided": len(hunted_undecided),
                 "families_inconclusive": len(inconclusive),
                 "families_error": len(errors),
-                "evaluations": len(results),
-                "distinct_nontrivial": sum(1 for r in results if any(g.get("verdict") in ("unsat", "sat", "unknown") for g in r.get("goals", []))),
-                "rule": "one family = one symbolic execution of the real code for one coordinate-system signature / call shape; non-trivial = at least one goal was decided by an SMT query (structural goals decided by object identity are counted separately)",
+                "evaluations": len(results_claim),
+                "distinct_nontrivial": sum(1 for r in results_claim if r["status"] == "proved" and len(r.get("goals", [])) > 0 and r.get("inputs")),
+                "solver_decided_families": sum(1 for r in results_claim if any(g.get("verdict") in ("unsat", "sat", "unknown") for g in r.get("goals", []))),
+                "rule": "one family = one symbolic execution of the real code for one coordinate-system signature / call shape (family keys are unique); non-trivial = the family executed the real code on at least one symbolic input and all its goals were discharged; solver_decided_families counts those with at least one goal decided by an SMT query (the others are decided by object identity on the single symbolic path)",
                 "checker_cmd": f"./check {pid} --tier {tier}",
                 "trusted_base": getattr(mod, "TRUSTED", ["z3 5.1.0 (QF_NRA, nlsat)", "axiom schemas of symx/core.py for sqrt/sin/cos/atan2/acos/atan/exp/log/mod", "reference model spec/model.py", "Sym fraction arithmetic"]),
                 "samples": samples,
